@@ -130,6 +130,11 @@ func c20(e *Env) {
 					// collector itself) - but not of the Upstream map, whose keys are file paths
 					okCopy := k.Op == "rangekey" && v.Op == "rangeval" && k.Args[0].String() == v.Args[0].String() &&
 						!(k.Args[0].Op == "field" && strings.HasSuffix(k.Args[0].Name, ".Upstream"))
+					// the same copy written as keys-then-lookup: m2[k] = m[k] with k ranging over m
+					if !okCopy && k.Op == "rangekey" && len(k.Args) == 1 && vs == k.Args[0].String()+"["+ks+"]" &&
+						!(k.Args[0].Op == "field" && strings.HasSuffix(k.Args[0].Name, ".Upstream")) {
+						okCopy = true
+					}
 					ob1k.Check(okID || okCopy, e.where(mu), "m["+trunc(ks, 50)+"] = "+trunc(vs, 50), "entry m["+ks+"] = "+vs+" is not keyed by the stored record's ID: records are lost or listed several times (the keys of Upstream are file paths, several of which can carry the same record)")
 				}
 			}
@@ -238,6 +243,14 @@ func c20(e *Env) {
 						continue
 					}
 					switch cc.Call.StaticCallee().String() {
+					case "(time.Time).Equal":
+						// the tie test must look at the same key as the ordering: records whose OTHER time stamps happen to
+						// coincide are not ties
+						a0 := csy.InCtx(cn.Ctx, cc.Call.Args[0]).String()
+						a1 := csy.InCtx(cn.Ctx, cc.Call.Args[1]).String()
+						if !strings.Contains(a0, ".StartTime") || !strings.Contains(a1, ".StartTime") {
+							bad = "the tie test compares " + trunc(a0, 60) + " with " + trunc(a1, 60) + ", not the two start times: records with different start times can be ordered by the tie-breaker"
+						}
 					case "(time.Time).Before", "(time.Time).After":
 						a0 := csy.InCtx(cn.Ctx, cc.Call.Args[0]).String()
 						a1 := csy.InCtx(cn.Ctx, cc.Call.Args[1]).String()
@@ -357,6 +370,45 @@ func (e *Env) c20Converters(cmdPkg *ssa.Package, flatten, sortfn *ssa.Function) 
 		}
 		if !okPipe {
 			obP.Fail(core.FuncName(fn), "the converter does not pass flatten(record) through the sort-by-start function")
+		}
+		// polarity of the error handling: when nothing fails the report is written, and a failure is reported to the
+		// caller (an inverted `err != nil` makes the converter return early with success and an empty file)
+		if gf := e.XG(fn); gf != nil {
+			obW := r.Ob("R4", cv.name+":success⇒written", "when no step fails the rendered report is written to the output file; when writing it fails the converter returns an error")
+			isWrite := func(m *core.Node) bool {
+				return m.Kind != core.KAfter && m.IsCallTo("(*text/template.Template).Execute", "(*os.File).WriteString", "(*os.File).Write", "io/ioutil.WriteFile", "os.WriteFile", "(*bufio.Writer).WriteString", "fmt.Fprint", "fmt.Fprintf", "io.WriteString")
+			}
+			isRet := func(m *core.Node) bool { return m.Kind == core.KRootRet }
+			allOK := func(m *core.Node) (core.AV, bool) {
+				if m.Call == nil || m.Kind == core.KAfter || m.Kind == core.KCall {
+					return core.Top, false
+				}
+				res := m.Call.Signature().Results()
+				if res.Len() == 0 || !types.Identical(res.At(res.Len()-1).Type(), types.Universe.Lookup("error").Type()) {
+					return core.Top, false
+				}
+				if res.Len() == 1 {
+					return core.NilAV(), true
+				}
+				t := make([]core.AV, res.Len())
+				for i := range t {
+					t[i] = core.Top
+				}
+				t[len(t)-1] = core.NilAV()
+				return core.TupleAV(t...), true
+			}
+			ws := gf.Select(isWrite)
+			resOK := gf.Run(core.Scenario{Start: gf.Entry, AtEntry: true, CallResult: allOK})
+			switch {
+			case len(ws) == 0:
+				obW.Unknown(core.FuncName(fn), "no write of the rendered report found (template Execute / file write)")
+			case resOK.NormalReturn() == nil:
+				obW.Fail(core.FuncName(fn), "when every step succeeds the converter never returns normally")
+			case resOK.ReachesAvoiding(isRet, isWrite) != nil:
+				obW.Fail(core.FuncName(fn), "when every step succeeds the converter can return without having written the report (an error test with the wrong polarity)")
+			default:
+				obW.OK(core.FuncName(fn), "all steps succeed ⇒ the report is written before the converter returns")
+			}
 		}
 		if cv.tplConst == "" {
 			// HTML: per-task formatter called for every element of the sorted slice
